@@ -1,16 +1,19 @@
 """C12  All entry points produce the same bytes for any chunking of the stream.
 
-MC : spec/Stream.tla (design model of Writer / Reader / ResponseWriter / Middleware(WithError) /
-     Bytes / String over Go's io.Pipe, one action per linearisation point) is model-checked
-     exhaustively: ChunkingInvariance, CloseWaits, NoWriteAfterClose, ContentLengthGone,
-     SelectionRule, FaultSurfaces, liveness <>CloseReturned, deadlock.  The design as it is in
-     the repository (PatchCL = FALSE) must violate exactly ContentLengthGone (known finding), and
-     deliberately wrong designs (Mut) must be killed, so no invariant is vacuous.
-GEN: spec/StreamGen.tla: TLC enumerates every initial state of Stream (= every combination of
-     the choices the harness controls) and Cuts(1..n) (all partitions incl. empty chunks).
-RUN: harness/cmd/c12 renders the choices on the real public API with instrumented doubles; hook
-     events of minify.VerifTrace and harness events form one totally ordered log per session.
-TV : spec/C12Trace.tla steps through every session's events; the property's clauses are invariants.
+MC : spec/Stream.tla (design model D of Writer / Reader / ResponseWriter / Middleware(WithError) / Bytes / String
+     over Go's io.Pipe, one action per linearisation point) is model-checked exhaustively: ChunkingInvariance,
+     CloseWaits, NoWriteAfterClose, ContentLengthGone, SelectionRule, FaultSurfaces, liveness <>CloseReturned,
+     deadlock.  The property relation itself (spec/StreamRel.tla, level A) runs as a monitor over the events the
+     design's actions emit: D => A for every interleaving (MonitorQuiet / MonitorFinal).  The design as it is in
+     the repository (PatchCL = FALSE) must violate exactly ContentLengthGone (known finding), the patched design
+     passes it, and deliberately wrong designs (Mut) must be rejected, so no invariant is vacuous.  Thorough:
+     per-action coverage of the design and seeded random walks beyond the exhaustive bound.
+GEN: spec/StreamGen.tla: TLC enumerates every initial state of Stream (= every combination of the choices the
+     harness controls) and Cuts(1..n) (all partitions incl. empty chunks).
+RUN: harness/cmd/c12 renders the choices on the real public API with instrumented doubles; hook events of
+     minify.VerifTrace and harness events form one totally ordered log per session.
+TV : spec/C12Trace.tla steps through every session's events and evaluates StreamRel (the same relation) in every
+     state; facts of the design model visible in the event order are reported as DRIFT (information only).
 """
 import json
 import os
@@ -40,6 +43,15 @@ SHORT = {
     'svg': [b'<svg/>', b'<g> </g>', b'<a b=""/>'[:8]],
     'xml': [b'<a> </a>', b'<a/>', b'<a>b</a>', b'<a b="c"/>'[:8], b'<!---->a'],
 }
+# inputs on which the plain call returns an error or which stop inside a construct (error paths of every entry point)
+ERRORS = {
+    'css': [b'a{b:c', b'/* c', b'a{b:"x', b'@media x{a{b:c}', b'a{b:url(x'],
+    'html': [b'<a href="x', b'<!-- c', b'<script>var a = ;</script>', b'<style>a{</style>', b'<p style="a:b', b'<script>x('],
+    'js': [b'a = "x', b'/* c', b'a = (b', b'var a = ;', b'function f(){', b'a = /re', b'if(a)', b'a +', b'}'],
+    'json': [b'{"a":', b'[1,', b'"abc', b'{"a"', b'tru', b'{"a":1,}', b'[1 2]'],
+    'svg': [b'<svg><path d="M0 0', b'<svg><!-- c', b'<svg><style>a{', b'<svg><script>var a = ;</script></svg>'],
+    'xml': [b'<a b="c', b'<!-- c', b'<a><![CDATA[x', b'<?xml', b'<a>b'],
+}
 BENCH = {'css': ['sample_normalize.css'], 'html': ['sample_blogpost.html'], 'js': ['sample_dot.js'],
          'json': ['sample_twitter.json'], 'svg': ['sample_gopher.svg'], 'xml': ['sample_books.xml', 'sample_catalog.xml']}
 BENCH_THOROUGH = {'css': ['sample_fontawesome.css'], 'html': ['sample_bbc.html'], 'js': ['sample_moment.js'],
@@ -61,7 +73,7 @@ def suite_inputs(ctx):
                 continue
             seen.add(s)
             lst.append(s)
-        for s in SHORT[t]:
+        for s in SHORT[t] + ERRORS[t]:
             if s not in seen:
                 seen.add(s)
                 lst.append(s)
@@ -83,24 +95,31 @@ def bench_inputs(ctx):
 
 
 # ---------------------------------------------------------------- MC + GEN
-MUTANTS = [('nowait', ['CloseWaits', 'NoWriteAfterClose']), ('noerr', ['CloseWaits', 'FaultSurfaces', 'NoSilentTruncation']),
-           ('noprobe', ['FaultSurfaces', 'NoSilentTruncation']), ('extfirst', ['SelectionRule', 'ChunkingInvariance']),
-           ('eofswallow', ['FaultSurfaces', 'NoSilentTruncation'])]
+MON = ['MonitorQuiet', 'MonitorFinal']
+MUTANTS = [('nowait', ['CloseWaits', 'NoWriteAfterClose'] + MON), ('noerr', ['CloseWaits', 'FaultSurfaces', 'NoSilentTruncation'] + MON),
+           ('noprobe', ['FaultSurfaces', 'NoSilentTruncation']), ('extfirst', ['SelectionRule', 'ChunkingInvariance'] + MON),
+           ('eofswallow', ['FaultSurfaces', 'NoSilentTruncation'] + MON)]
 
 
 def model_check_jobs(ctx, tier, mutants):
     """design-level model checking, as a list of (name, thunk) run concurrently with case generation.
     - Stream_<tier>.cfg: the design as implemented (PatchCL = FALSE), every mode, every invariant but ContentLengthGone,
-      NoWriteAfterClose, liveness <>CloseReturned, deadlock;
+      NoWriteAfterClose, liveness <>CloseReturned, deadlock; and D => A: the property relation of the trace
+      specification (StreamRel) runs as a monitor over the events of every design behaviour and never flags one
+      (MonitorQuiet, MonitorFinal) - no clause rejects an interleaving the correct design can produce;
     - Stream_<tier>_patched.cfg: response mode with the proposed patch: every invariant incl. ContentLengthGone;
     - Stream_<tier>_clg.cfg: response mode as implemented must VIOLATE ContentLengthGone (the model reproduces the finding);
     - Stream_mut_*.cfg: deliberately wrong designs must be rejected (no invariant is vacuous)."""
     w = max(2, min(6, vlib.JOBS // 2))
 
     def main():
-        r = vlib.tlc(ctx, 'Stream', 'Stream_%s.cfg' % tier, workers=w, timeout=1500, heap='6g')
+        r = vlib.tlc(ctx, 'Stream', 'Stream_%s.cfg' % tier, workers=w, timeout=1500, heap='6g',
+                     extra=(['-coverage', '1'] if tier == 'thorough' else []))
         ok(r, 'Stream_%s.cfg' % tier)
-        return dict(design_states=r['distinct'], design_transitions=r['generated'], design_depth=r['depth'])
+        info = dict(design_states=r['distinct'], design_transitions=r['generated'], design_depth=r['depth'])
+        if tier == 'thorough':
+            info['design_action_coverage'] = action_coverage(r['out'])
+        return info
 
     def patched():
         r = vlib.tlc(ctx, 'Stream', 'Stream_%s_patched.cfg' % tier, workers=w, timeout=1500, heap='6g')
@@ -109,9 +128,9 @@ def model_check_jobs(ctx, tier, mutants):
 
     def clg():
         r = vlib.tlc(ctx, 'Stream', 'Stream_%s_clg.cfg' % tier, workers=2, timeout=1500, heap='4g')
-        if set(r['invariant_violations']) != {'ContentLengthGone'}:
+        if not set(r['invariant_violations']) or not set(r['invariant_violations']) <= {'ContentLengthGone', 'MonitorStrict'}:
             raise vlib.Infra('as-is design expected to violate ContentLengthGone, got %s\n%s' % (r['invariant_violations'], r['out'][-1500:]))
-        return dict(asis_design_violates='ContentLengthGone')
+        return dict(asis_design_violates='ContentLengthGone (state invariant / the StreamRel clause run as monitor)')
 
     def mut(name, expect):
         def f():
@@ -122,9 +141,34 @@ def model_check_jobs(ctx, tier, mutants):
             return {'wrong_design_' + name: 'rejected by ' + sorted(viol & set(expect))[0]}
         return f
 
-    jobs = [('main', main), ('patched', patched), ('clg', clg)]
+    def sim():
+        # random walks of the design far beyond the exhaustive bound (4 input bytes, 4 output pieces, full product)
+        r = vlib.tlc(ctx, 'Stream', 'Stream_sim.cfg', workers=2, timeout=1500, heap='4g', simulate='num=10000', depth=100, seed=ctx.seed)
+        if r['invariant_violations'] or r['errors'] or not r['completed']:
+            raise vlib.Infra('simulation of the design model did not pass:\n%s' % r['out'][-3000:])
+        m = re.search(r'(\d+) states checked, (\d+) traces generated', r['out'])
+        return dict(design_simulated_traces=int(m.group(2)) if m else 0, design_simulated_states=int(m.group(1)) if m else 0)
+
+    jobs = [('main', main), ('patched', patched), ('clg', clg)] + ([('sim', sim)] if tier == 'thorough' else [])
     jobs += [('mut_' + n, mut(n, e)) for n, e in mutants]
     return jobs
+
+
+ACTIONS = ['PWriteCall', 'PWriteRet', 'PCloseCall', 'PCloseRet', 'HStart', 'HSelect', 'HPassWrite', 'HWriteHeaderLast', 'HClose',
+           'WStart', 'WReadPipe', 'WReadSrc', 'WSrcErr', 'WWriteSink', 'WProbeSink', 'WPipeBegin', 'WPipeEnd', 'WExit1', 'WExit2',
+           'CRead', 'PRet', 'GateOpen']
+
+
+def action_coverage(out):
+    """per-action coverage of the design model (TLC -coverage): every action must produce new states"""
+    tail = out[out.rfind('The coverage statistics'):]
+    cov = {}
+    for m in re.finditer(r'<(\w+) line \d+, col \d+ to line \d+, col \d+ of module Stream>: (\d+):(\d+)', tail):
+        cov[m.group(1)] = int(m.group(2))
+    missing = [a for a in ACTIONS if cov.get(a, 0) == 0]
+    if missing:
+        raise vlib.Infra('design model: actions never taken: %s' % missing)
+    return {a: cov[a] for a in ACTIONS}
 
 
 def ok(r, what):
@@ -418,6 +462,9 @@ def make_cases(ctx, inits, cuts, suite, bench, profile):
 
 
 # ---------------------------------------------------------------- RUN
+CRASHED = []        # enumeration cases during which the driver process died: (case, stderr)
+
+
 def run_driver(ctx, exe, cases, tag, procs=None, timeout=1500):
     """run the driver over the cases (several processes); returns the list of output lines (str), aligned with cases
     for non-enumerating cases.  A blocked session stops its process (exit 3): the rest is resumed in a new one.
@@ -435,13 +482,16 @@ def run_driver(ctx, exe, cases, tag, procs=None, timeout=1500):
         start = 0
         rnd_n = 0
         nblocked = 0
+        ncrash = 0
         while start < len(idx):
             rnd_n += 1
             cin = ctx.path('run', '%s-%d-%d-cases.ndjson' % (tag, si, rnd_n))
             cout = ctx.path('run', '%s-%d-%d-trace.ndjson' % (tag, si, rnd_n))
             vlib.write_ndjson(cin, [cases[i] for i in idx[start:]])
             try:
-                r = subprocess.run([exe, cin, cout], capture_output=True, text=True, timeout=timeout)
+                # different degrees of real parallelism give the Go scheduler different interleavings to choose from
+                env = dict(os.environ, GOMAXPROCS=str([1, 2, 4, 8][si % 4]))
+                r = subprocess.run([exe, cin, cout], capture_output=True, text=True, timeout=timeout, env=env)
             except subprocess.TimeoutExpired:
                 raise vlib.Infra('driver timeout (%s shard %d)' % (tag, si))
             lines = [l.rstrip('\n') for l in open(cout)] if os.path.exists(cout) else []
@@ -457,6 +507,21 @@ def run_driver(ctx, exe, cases, tag, procs=None, timeout=1500):
                     if nblocked >= 3 or not pos:
                         break
                     start = pos[0] + 1
+                    continue
+                if r.returncode == 2 and ('panic:' in r.stderr or 'fatal error:' in r.stderr):
+                    # the process died (panic in a goroutine of the code under test) inside the case after the last
+                    # completed one, or inside the case of the last record
+                    done_ids = [json.loads(l)['cid'] for l in lines[-1:]]
+                    ids = [cases[i]['id'] for i in idx]
+                    pos = ids.index(done_ids[0]) if done_ids and done_ids[0] in ids else start - 1
+                    # the crashing case is ids[pos] (died in the middle) or ids[pos+1] (died at its start): both are rerun alone
+                    for q in (pos, pos + 1):
+                        if 0 <= q < len(idx):
+                            CRASHED.append((cases[idx[q]], r.stderr[-1500:]))
+                    ncrash += 1
+                    if ncrash >= 3 or pos + 2 >= len(idx):
+                        break
+                    start = pos + 2
                     continue
                 raise vlib.Infra('driver failed on enumeration cases (%d): %s' % (r.returncode, r.stderr[-2000:]))
             out_lines += lines
@@ -506,7 +571,7 @@ def run_alone(ctx, exe, case, tag, nowatchdog=False):
     cin = ctx.path('alone', '%s-case.ndjson' % tag)
     cout = ctx.path('alone', '%s-trace.ndjson' % tag)
     vlib.write_ndjson(cin, [case])
-    args = [exe] + (['-nowatchdog'] if nowatchdog else []) + [cin, cout]
+    args = ([nocgo_exe(ctx), '-nowatchdog'] if nowatchdog else [exe]) + [cin, cout]
     try:
         r = subprocess.run(args, capture_output=True, text=True, timeout=120)
     except subprocess.TimeoutExpired:
@@ -667,6 +732,8 @@ def selftest(ctx, lines, rejected):
         [x for x in a['ev'] if x['k'] == 'Read' and x['e'] != 'nil'][0]['e'] = 'other'
         bad.append((a, 'ChunkingInvariance'))
     if len(bad) < 4:
+        if ctx.violations:
+            return      # (nearly) everything was rejected: the verdict stands, nothing accepted is left to corrupt
         raise vlib.Infra('binding self-test: no suitable accepted sessions to corrupt')
     acc, rej = validate(ctx, [json.dumps(a, separators=(',', ':')) for a, _ in bad])
     got = {}
@@ -694,25 +761,48 @@ def profile_inputs(ctx, exe, suite):
     return prof
 
 
+def phase(ctx, name):
+    import time
+    vlib.log('[%s %6.1fs] %s' % (ctx.pid, time.time() - ctx.t0, name))
+
+
 def build(ctx):
-    # pure-Go build: with cgo linked in, the Go runtime does not report "all goroutines are asleep", which is what
-    # proves a blocked session in the isolated rerun
-    os.environ['CGO_ENABLED'] = '0'
     return vlib.build_harness(ctx, 'c12')
+
+
+_nocgo = {}
+
+
+def nocgo_exe(ctx):
+    """pure-Go build of the driver, made only when a blocked session has to be confirmed: with cgo linked in (net), the
+    Go runtime never reports "all goroutines are asleep - deadlock!", which is what proves the block in the isolated rerun"""
+    if ctx.scratch not in _nocgo:
+        out = ctx.path('bin', 'c12-nocgo')
+        env = vlib.goenv()
+        env['CGO_ENABLED'] = '0'
+        args = ['go', 'build'] + vlib._modfile(ctx) + ['-tags', 'verif', '-o', out, './cmd/c12']
+        r = subprocess.run(args, cwd=vlib.HARNESS, env=env, capture_output=True, text=True)
+        if r.returncode != 0:
+            raise vlib.Infra('pure-Go harness build failed:\n%s' % r.stderr[-3000:])
+        _nocgo[ctx.scratch] = out
+    return _nocgo[ctx.scratch]
 
 
 def run(ctx):
     quick = ctx.quick()
     exe = build(ctx)
-    # ---- MC (runs concurrently with generation and the real sessions)
     vlib._speccopy(ctx)
     pool = ThreadPoolExecutor(max_workers=3 if quick else 4)
-    futs = [(n, pool.submit(f)) for n, f in model_check_jobs(ctx, 'quick' if quick else 'thorough', MUTANTS[:1] + MUTANTS[3:4] if quick else MUTANTS)]
-    # ---- GEN
-    inits, cuts, rg = generate(ctx, 'StreamGen_quick.cfg' if quick else 'StreamGen_thorough.cfg')
+    # ---- GEN (TLC) while the suite inputs are extracted and profiled
+    gen = pool.submit(generate, ctx, 'StreamGen_quick.cfg' if quick else 'StreamGen_thorough.cfg')
     suite = suite_inputs(ctx)
     bench = bench_inputs(ctx)
     profile = profile_inputs(ctx, exe, suite)
+    phase(ctx, 'inputs profiled')
+    inits, cuts, rg = gen.result()
+    phase(ctx, 'generated')
+    # ---- MC (runs concurrently with the real sessions and their validation)
+    futs = [(n, pool.submit(f)) for n, f in model_check_jobs(ctx, 'quick' if quick else 'thorough', MUTANTS[:1] + MUTANTS[3:4] if quick else MUTANTS)]
     cases, stats = make_cases(ctx, inits, cuts, suite, bench, profile)
     pinned = vlib.known_cases(PID)
     for p in pinned:
@@ -722,8 +812,10 @@ def run(ctx):
         c.setdefault('small', SMALL)
         c['tag'] = 'pinned'
         cases.append(c)
+    phase(ctx, '%d cases built' % len(cases))
     # ---- RUN
     lines = run_driver(ctx, exe, cases, 'main')
+    phase(ctx, 'sessions run')
     if any(l is None for l in lines):
         # only after several sessions blocked: the cases after them on the same shard were not run
         ctx.coverage['sessions_not_run_after_blocked'] = sum(1 for l in lines if l is None)
@@ -734,10 +826,13 @@ def run(ctx):
         raise vlib.Infra('no hook events recorded: the harness was not built with -tags verif or the hooks are gone')
     # ---- TV
     accepted, rejects = validate(ctx, lines)
+    phase(ctx, 'validated')
     if rejects:
         confirm_and_report(ctx, exe, cases, lines, rejects)
+    phase(ctx, 'rejections confirmed')
     # ---- binding self-test: corrupted recordings of accepted sessions must be rejected
     selftest(ctx, lines, set(i for i, _ in rejects))
+    phase(ctx, 'selftest done')
     # ---- collect MC
     for n, f in futs:
         info = f.result()
@@ -746,6 +841,7 @@ def run(ctx):
             ctx.mc['transitions'] += info.get('design_transitions', 0) + info.get('patched_design_transitions', 0)
         ctx.coverage.update(info)
     pool.shutdown()
+    phase(ctx, 'MC collected')
     # ---- evidence
     nontrivial = set()
     events = 0
@@ -832,10 +928,11 @@ META = dict(
     text='Stream.tla models the Writer, Reader, ResponseWriter/Middleware(WithError) and Bytes/String entry points over Go io.Pipe '
          'semantics with one action per linearisation point; TLC checks ChunkingInvariance, CloseWaits, NoWriteAfterClose, '
          'ContentLengthGone, SelectionRule, FaultSurfaces, deadlock freedom and <>CloseReturned for every chunking x fault '
-         'position x gate x header choice, and rejects deliberately wrong designs. Every initial state and every partition '
+         'position x gate x header choice and every interleaving, checks that the property relation StreamRel.tla never flags a '
+         'behaviour of the design (D => A), and rejects deliberately wrong designs. Every initial state and every partition '
          'Cuts(n) enumerated by TLC is rendered on the real API for all six media types (plus seeded partitions of suite and '
          'benchmark inputs); the totally ordered event log of each real session (hook + harness events) is validated by TLC '
-         'against C12Trace.tla, whose invariants are the clauses of the property.',
+         'against C12Trace.tla, whose invariants are the clauses of StreamRel (= of the property).',
     design_ref='DESIGN.md section 4 C12, Appendix A.2',
     note='Trusted: TLC; the harness doubles (sink, source, ResponseWriter) and their event log; SHA-1 for outputs above 96 bytes; '
          'hook events behind build tag verif. Goroutine interleavings are those the Go scheduler and the gates produce (gated '
